@@ -147,7 +147,16 @@ impl Story {
                     self.get_state().set_in_expression_evaluation(false);
                 }
                 CommandType::Duplicate => {
-                    let obj = self.get_state().peek_evaluation_stack().unwrap().clone();
+                    let obj = self
+                        .get_state()
+                        .peek_evaluation_stack()
+                        .cloned()
+                        .ok_or_else(|| {
+                            StoryError::InvalidStoryState(
+                                "Tried to duplicate the top of the evaluation stack, but it is empty"
+                                    .to_owned(),
+                            )
+                        })?;
                     self.get_state_mut().push_evaluation_stack(obj);
                 }
                 CommandType::PopEvaluatedValue => {
@@ -480,11 +489,15 @@ impl Story {
                         return Err(StoryError::InvalidStoryState("Passed non-integer when creating a list element from a numerical value.".to_owned()));
                     }
 
+                    let Some(list_name_val) = list_name_val else {
+                        return Err(StoryError::InvalidStoryState("Passed non-string list name when creating a list element from a numerical value.".to_owned()));
+                    };
+
                     let mut generated_list_value: Option<Value> = None;
                     if let Some(found_list_def) = self
                         .list_definitions
                         .as_ref()
-                        .get_list_definition(list_name_val.as_ref().unwrap())
+                        .get_list_definition(list_name_val)
                     {
                         if let Some(found_item) =
                             found_list_def.get_item_with_value(int_val.unwrap())
@@ -498,7 +511,7 @@ impl Story {
                     } else {
                         return Err(StoryError::InvalidStoryState(format!(
                             "Failed to find List called {}",
-                            list_name_val.as_ref().unwrap()
+                            list_name_val
                         )));
                     }
 
